@@ -29,6 +29,8 @@ class FoldConstants(ast.NodeTransformer):
         self.generic_visit(node)
         if isinstance(node.op, ast.Not) and isinstance(node.operand, ast.Constant) and isinstance(node.operand.value, bool):
             return ast.copy_location(ast.Constant(value=not node.operand.value), node)
+        if isinstance(node.op, ast.USub) and isinstance(node.operand, ast.Constant) and isinstance(node.operand.value, (int, float)) and not isinstance(node.operand.value, bool):
+            return ast.copy_location(ast.Constant(value=-node.operand.value), node)
         return node
 
     def visit_BoolOp(self, node):
